@@ -170,9 +170,10 @@ def scheme_rule(ctx, p):
             rs = p.func(f"{RU}:reg_split_from")
             c2 = wire.calls_to(p, m, rs.key)
             g2 = wire.kwr(m, c2[0], rs) if len(c2) == 1 else {}
-            # the three tables handed to the matrix util are the three results of reg_split_from, in order
-            unpack = [nn for nn in m.body_nodes() if isinstance(nn, ast.Assign) and c2 and nn.value is c2[0] and isinstance(nn.targets[0], ast.Tuple)]
-            oku = len(unpack) == 1 and [norm_text(e) for e in unpack[0].targets[0].elts] == ["splitted_mappings", "splitted_sizes", "splitted_weights"]
+            # the three tables handed to the matrix util are the three results of reg_split_from, in order (however they are unpacked: directly, or through a local holding the triple)
+            tab = wire.kwr(m, cs[0], callee, unpack=True) if len(cs) == 1 else {}
+            inner = norm_text(wire.inline_locals(m, c2[0]), limit=4000) if c2 else "?"
+            oku = [tab.get(k_) for k_ in ("splitted_mappings", "splitted_sizes", "splitted_weights")] == [f"{inner}[{n_}]" for n_ in (0, 1, 2)]
             ctx.ob(rule, m.key + ":split-tables", oku and g2 == {"splitted_mappings": "linear_obj.pix_sub_weights_split_cross.mappings", "splitted_sizes": "linear_obj.pix_sub_weights_split_cross.sizes", "splitted_weights": "linear_obj.pix_sub_weights_split_cross.weights"},
                    where=m, node=c2[0] if c2 else m.node, construct=str(g2), message="the split-cross tables must be the object's own, passed through reg_split_from")
     ctx.require_count(rule, "scheme wiring instances", n, 7)
